@@ -44,7 +44,7 @@ CLAIMS = {
             "(OPC-5) is_bool_op, is_int_op, _make_bool_expr, _make_int_expr and _elementwise accept exactly each operator's "
             "reference signature (all kind vectors up to arity 3); (OPC-7/AGG) count_true, fold_or, fold_and, alldifferent "
             "on every mix of literals, expressions, arrays and nestings up to 3 items incl. empty forms, and over arrays of every shape with axis lengths 0..3 (function and method forms); conv2d windows and "
-            "shapes; four_neighbors = in-bounds orthogonal neighbours with sibling order agreement. OPC-6A also passes operands whose elements are compound expressions of the same family built with the library's own operators (A op (B - C), A op (B + C), A op (B & C), A op (B | C))."
+            "shapes; four_neighbors = in-bounds orthogonal neighbours with sibling order agreement, also after the caller edited the list it got (no result object shared between calls; functools.lru_cache is modelled). OPC-6A also passes operands whose elements are compound expressions of the same family built with the library's own operators (A op (B - C), A op (B + C), A op (B & C), A op (B | C))."
         ),
         note="Trusted: the abstract evaluator and the reference table REF; the element kernel is uniform in the element index (two-element arrays) and conv2d/four_neighbors are judged on arrays up to 3x3/2x4.",
         technique="static analysis: finite-domain abstract evaluation of operator methods against a reference denotation (ast)",
@@ -58,7 +58,7 @@ CLAIMS = {
             "reference and key writers, domains printed lo hi; (OPC-4) every producible operator, natives included, prints "
             "as (<Sugar grammar name> operands...) with all operands for every producible arity, literals/constants as "
             "atoms; (SGR-2/3) SAT/UNSAT lines and assignment lines of both modes are parsed into the right variables with "
-            "bool/int types, undecided keys stay None; (SGR-4/5) description = declarations, constraints, key line naming "
+            "bool/int types, undecided keys stay None, and replies sent in sequence to one backend (facts, fewer facts, unsat) each replace what the one before left in sol; (SGR-4/5) description = declarations, constraints, key line naming "
             "exactly the registered keys in the syntax the wrapper parses; (SGR-6) native operators' operand layout and "
             "length guards; (SGR-7) name -> class -> external entry point. Conversions run in sequence under a model of id() in which the addresses of a finished conversion's temporaries are reused; 16 nested trees are printed and the text, read back with the Sugar grammar (n-ary +, left-associated -), must mean what the tree means. Constraints are posted one at a time and in batches in any interleaving (single, batch, literal, batch): all stay posted, in order; a backend over variables whose list order differs from their ids names the keys by position. Not decided: the external solvers."
         ),
@@ -96,7 +96,7 @@ CLAIMS = {
             "explicit argument wins, None reads config.default_backend at call time, all six names resolve to their classes, "
             "unknown names raise ValueError, find_answer/solve pass their own argument; (CFG-4) every graph function with a "
             "native route emits native operators exactly when argument-else-config (set after import) says so, never for "
-            "acyclic connectivity, division variant governed by its own flag, path form raises when off. CFG-3 also covers modules that are installed but fail to import (absent / broken / importable: 81 combinations): only importable ones count. find_answer/solve are run with natively deducing backends and with backends that fall back to the refinement loop (NotImplementedError, then sat, then unsat): exactly one backend object, of the class the call names."
+            "acyclic connectivity, division variant governed by its own flag, path form raises when off. CFG-3 also covers modules that are installed but fail to import (absent / broken / importable: 81 combinations): only importable ones count. find_answer/solve are run with natively deducing backends and with backends that fall back to the refinement loop (NotImplementedError, then sat, then unsat): exactly one backend object, of the class the call names. (REF-6) the class each name resolves to takes its own deduction route (native / refute-and-resolve), not one inherited from a sibling class."
         ),
         note="Trusted: the abstract evaluator; importability modelled as ImportError from the import statement.",
         technique="static analysis: exhaustive finite-domain abstract evaluation of configuration/dispatch/gating code (ast)",
@@ -127,7 +127,8 @@ CLAIMS = {
             "5x9 (runs beyond one character), Grid with environment and explicit (incl. zero) sizes; every produced text is "
             "followed by junk so that exact consumption is decided. Rooms/ValuedRooms: every connected partition of the boards "
             "1x1..3x2 (enumerated), in three room/cell orderings, must come back as the same partition in canonical order with "
-            "each value attached to the same room. (CDC-2) Optional[int] combinator attributes are never tested by truthiness. "
+            "each value attached to the same room. Every round trip is repeated with the text behind other characters and with the value at "
+            "position 1 of its value list, and one Grid / Rooms / ValuedRooms object is re-used for boards of seven sizes in sequence. (CDC-2) Optional[int] combinator attributes are never tested by truthiness. "
             "Not decided: values far from any breakpoint in compositions not exercised here."
         ),
         note="Trusted: the abstract evaluator; Python's hex/int/str; the boundary-value small-model argument (branch selection only depends on comparisons with the extracted constants).",
@@ -165,7 +166,7 @@ CLAIMS = {
             "character-class validation; (EXC-7) each leaf combinator, each bundled puzzle combinator, Rooms/heyawake on five "
             "boards, the URL entry points and the compass parser are evaluated on all short strings over one representative "
             "per character class: every outcome must be None, ValueError, or a value that serializes and decodes back to "
-            "itself. Same-module helpers that receive the input are analysed under an entry contract computed from their call sites; cursor-advancing helpers and one-line predicate helpers are summarised. (EXC-6V) the character-class validators the rules rely on are evaluated on all strings of length <= 2 over the character classes. A proof rule that fails without an EXC-7 witness makes the check exit 2, not 1. (compass.parse_puzz_link_url was repaired; no known findings remain.)"
+            "itself; each decoder is judged again as the second part of Tupl(FixStr('0'), .) and inside Seq(., 2) compositions. Same-module helpers that receive the input are analysed under an entry contract computed from their call sites; cursor-advancing helpers and one-line predicate helpers are summarised. (EXC-6V) the character-class validators the rules rely on are evaluated on all strings of length <= 2 over the character classes. A proof rule that fails without an EXC-7 witness makes the check exit 2, not 1. (compass.parse_puzz_link_url was repaired; no known findings remain.)"
         ),
         note="Trusted: the guard-fact walker and Fourier-Motzkin prover; the abstract evaluator; the character-class alphabet. Non-termination and memory are not decided.",
         technique="static analysis: may-raise analysis over guard facts with linear entailment + finite-quotient abstract evaluation (ast)",
